@@ -38,16 +38,16 @@ type answerSpec struct {
 }
 
 const (
-	wireNormal      = iota // net/http writes it: Content-Type application/json unless Headers say otherwise
-	wireNoCT               // no Content-Type header at all
-	wireGzip               // Content-Encoding: gzip, body really gzipped
-	wireGzipLie            // Content-Encoding: gzip, body not gzipped
-	wireCLShort            // Content-Length smaller than the body
-	wireCLLong             // Content-Length larger than the body
-	wireChunked            // Transfer-Encoding: chunked, small chunks, trailers
-	wireChunkedBad         // Transfer-Encoding: chunked with a malformed chunk size
-	wireDupCL              // two different Content-Length headers
-	wireHugeHeader         // a 60 kB header line
+	wireNormal     = iota // net/http writes it: Content-Type application/json unless Headers say otherwise
+	wireNoCT              // no Content-Type header at all
+	wireGzip              // Content-Encoding: gzip, body really gzipped
+	wireGzipLie           // Content-Encoding: gzip, body not gzipped
+	wireCLShort           // Content-Length smaller than the body
+	wireCLLong            // Content-Length larger than the body
+	wireChunked           // Transfer-Encoding: chunked, small chunks, trailers
+	wireChunkedBad        // Transfer-Encoding: chunked with a malformed chunk size
+	wireDupCL             // two different Content-Length headers
+	wireHugeHeader        // a 60 kB header line
 	wireCount
 )
 
@@ -751,13 +751,13 @@ func (w *world) run(g group) []c.Case {
 	for i, sc := range g.Members {
 		tc := probeTok(sc.TokEff.Body)
 		uc := probeUser(sc.UIEff.Body)
-		if sc.TokIntended != nil && !sameTok(*sc.TokIntended, tc) {
+		if sc.TokIntended != nil && !sameTok(*sc.TokIntended, probeTok(sc.Tok.Raw)) { // the renderer, not the wire
 			w.selfCheckFailures++
 			if w.selfCheckFailures <= 3 {
 				fmt.Fprintf(os.Stderr, "self-check tok: %q intended %+v probed %+v\n", sc.Tok.Raw, *sc.TokIntended, tc)
 			}
 		}
-		if sc.UIIntended != nil && !sameUser(*sc.UIIntended, uc) {
+		if sc.UIIntended != nil && !sameUser(*sc.UIIntended, probeUser(sc.UI.Raw)) {
 			w.selfCheckFailures++
 			if w.selfCheckFailures <= 3 {
 				fmt.Fprintf(os.Stderr, "self-check userinfo: %q intended %+v probed %+v\n", sc.UI.Raw, *sc.UIIntended, uc)
@@ -779,11 +779,11 @@ func (w *world) run(g group) []c.Case {
 			"provider": cfg.Type, "config": cfg.describe(), "code": sc.Code, "note": sc.Note,
 			"group": map[string]interface{}{"size": k, "member": i, "release_order": order, "note": g.Note,
 				"unexpected_idp_requests_direct": unexpected, "unexpected_idp_requests_callback": unexpected2},
-			"token_answer":    answerJSON(sc.Tok, sc.TokEff, tc),
-			"userinfo_answer": answerJSON(sc.UI, sc.UIEff, uc),
+			"token_answer":                   answerJSON(sc.Tok, sc.TokEff, tc),
+			"userinfo_answer":                answerJSON(sc.UI, sc.UIEff, uc),
 			"userinfo_held_for_access_token": keys[i],
-			"payload_oracle":  tabJS,
-			"redeem":          ros[i], "token_called": tokHit[sc.Code], "userinfo_called": keys[i] != "" && uiHit[keys[i]],
+			"payload_oracle":                 tabJS,
+			"redeem":                         ros[i], "token_called": tokHit[sc.Code], "userinfo_called": keys[i] != "" && uiHit[keys[i]],
 			"callback": map[string]interface{}{"error_param": sc.ErrParam, "later_gate": sc.Later, "obs": cos[i]},
 		}
 		out = append(out, c.Case{Coq: coq, JSON: js})
